@@ -23,6 +23,10 @@ import (
 	"verif/sched"
 )
 
+func init() {
+	ev.Timed("c15/context-cancelled-late", "c15/late-start-not-cancelled", "c15/next-never-returned", "c15/context-not-cancelled", "c15/generation-not-ended")
+}
+
 func TestMain(m *testing.M) { ev.Main(m, "C15") }
 
 type fnSpec struct {
